@@ -344,10 +344,39 @@ def read_table(name, src, impl_body, read_body):
     return out
 
 
+NARROWING = []   # (type, "var: declared as T, used `as U` in: stmt")
+CAST_W = {"u8": 1, "i8": 1, "u16": 2, "i16": 2, "u32": 4, "i32": 4, "u64": 8, "i64": 8, "usize": 8, "isize": 8}
+
+
+def audit_casts(name, body):
+    """Every generated reader (also those outside the DSL): a variable read from the data with a declared
+    integer type must never be narrowed by an `as` cast where it sizes something (count / length
+    expressions).  `map_count as u16` for a u32 field silently truncates the array."""
+    decl = {}
+    for s in split_stmts(body):
+        s = strip_attrs(s)
+        m = re.match(r"let (\w+): (\w+) = cursor\.read\(\)\?", s)
+        if m:
+            decl[m.group(1)] = m.group(2)
+        m = re.match(r"let (\w+) = .*cursor\.read::<(\w+)>\(\)", s)
+        if m:
+            decl[m.group(1)] = m.group(2)
+        for c in re.finditer(r"\b(\w+) as (u8|i8|u16|i16|u32|i32|u64|i64|usize|isize)\b", s):
+            v, t = c.group(1), c.group(2)
+            dw = width_of(decl.get(v, "")) if v in decl else None
+            if dw is not None and CAST_W[t] < dw:
+                NARROWING.append((name, "%s is read as %s but used `as %s` in `%s`" % (v, decl[v], t, s[:90].replace('"', "'"))))
+
+
 def scan_read(files):
     for f in files:
         src = open(f).read()
         read_records(src)
+        for m in re.finditer(r"impl<'a> FontRead(?:WithArgs)?<'a> for (\w+)<'a> \{", src):
+            body, _ = block_at(src, m.end() - 1)
+            fm = re.search(r"fn read(?:_with_args)?\([^)]*\) -> Result<Self, ReadError> \{", body)
+            if fm:
+                audit_casts(m.group(1), block_at(body, fm.end() - 1)[0])
     for f in files:
         src = open(f).read()
         for m in re.finditer(r"impl<'a> FontRead(WithArgs)?<'a> for (\w+)<'a> \{", src):
@@ -681,6 +710,9 @@ def main():
             o.write("Definition W_%s : schema :=\n  %s.\n\n" % (name, cschema(w)))
         o.write("Definition all_pairs : list (string * schema * schema) :=\n  [" +
                 ";\n   ".join('("%s", R_%s, W_%s)' % (n, n, n) for n, _, _ in pairs) + "].\n\n")
+        o.write("(* integer narrowing casts of data-read variables inside generated readers (must be empty) *)\n")
+        o.write("Definition narrowing_casts : list (string * string) :=\n  [" +
+                ";\n   ".join('("%s", "%s")' % (n, why) for n, why in NARROWING) + "].\n\n")
         o.write("Definition skipped : list (string * string) :=\n  [" +
                 ";\n   ".join('("%s", "%s")' % (n, why.replace('"', "'")) for n, why in skipped) + "].\n")
     # diagnostic: arrays whose read-side count field is not computed by the writer from that very array
@@ -705,7 +737,9 @@ def main():
     for d in diag:
         print("    " + d)
     hist = Counter(re.sub(r"`.*`|:.*", "", why) for _, why in skipped)
-    print("c04_extract: %d pairs, %d skipped" % (len(pairs), len(skipped)))
+    print("c04_extract: %d pairs, %d skipped, %d narrowing casts in readers" % (len(pairs), len(skipped), len(NARROWING)))
+    for n, why in NARROWING:
+        print("  NARROWING %s: %s" % (n, why))
     for k, v in hist.most_common():
         print("  %4d  %s" % (v, k))
     return 0
